@@ -9,7 +9,8 @@ from . import domain, kinds
 
 KIND_KEYS = ("argparse_function", "class", "function")
 NAMES = {"argparse_function": "set_args", "class": "TargetClass", "function": "f_target"}
-STATES = ("missing", "empty", "absent", "stale", "agreeing")
+# "placeholder": the file binds the target's name to something that is not the definition yet (`TargetClass = None`)
+STATES = ("missing", "empty", "absent", "stale", "agreeing", "placeholder")
 HOLDER = "Holder"
 K2KIND = {"argparse_function": "argparse", "class": "class", "function": "function"}
 
@@ -73,6 +74,8 @@ def write_state(path, k, state, gold_ir_factory, stale_ir_factory, method=False,
         src = ""
     elif state == "absent":
         src = OTHER_METHOD if (k == "function" and method) else OTHER[k]
+    elif state == "placeholder":
+        src = OTHER[k] + "\n%s = None  # filled in by sync\n" % NAMES[k]
     else:
         ir = gold_ir_factory() if state == "agreeing" else stale_ir_factory()
         src = def_source(k, ir, method, nested)
